@@ -212,7 +212,10 @@ Fixpoint subst (n : nat) (body : list mtok) (args : list marg) (acc : list mtok)
               match r' with
               | rhs :: r'' =>
                 match find_arg args rhs with
-                | Some a2 => subst n' r'' args (rev (set_flags (m_bol rhs) (m_sp rhs) (a_toks a2)) ++ acc)
+                | Some a2 =>
+                  (* a ## b ## c with a empty: the result of the first paste is b, which is the left operand of the next ## *)
+                  if match r'' with h2 :: _ => is h2 HASHHASH | [] => false end then subst n' r' args acc
+                  else subst n' r'' args (rev (set_flags (m_bol rhs) (m_sp rhs) (a_toks a2)) ++ acc)
                 | None => subst n' r'' args (rhs :: acc)
                 end
               | [] => MErr        (* the C code dereferences the EOF token here *)
@@ -235,7 +238,13 @@ Fixpoint subst (n : nat) (body : list mtok) (args : list marg) (acc : list mtok)
         if is t VA_OPT && match r with h :: _ => is h LP | [] => false end then
           match read_arg_one true 0 (tl r) with
           | Some (content, rp :: r') =>
-            if has_varargs args then subst n' r' args (rev content ++ acc) else subst n' r' args acc
+            (* the content is substituted like the rest of the body (parameters, #, ##) before it is appended *)
+            if has_varargs args then
+              match subst n' content args [] with
+              | MOk c' => subst n' r' args (rev c' ++ acc)
+              | e => e
+              end
+            else subst n' r' args acc
           | _ => MErr
           end
         else subst n' r args (t :: acc)
